@@ -92,7 +92,7 @@ class C01(S.SchedCheck):
             "+ regression corpus (F01-F07) + thorough: exhaustive single-fault scope.  non-trivial = >=12 events and (do() raised or a forced close / remove / extend happened); distinct by request line")
 
     def corpus(self):
-        return list(S.CORPUS) + list(S.CORPUS_SELFRM) + list(S.CORPUS_BEXC)
+        return list(S.CORPUS) + list(S.CORPUS_SELFRM) + list(S.CORPUS_BEXC) + list(S.CORPUS_R2)
 
     def exhaustive(self, tier):
         if tier != "thorough":
@@ -102,7 +102,7 @@ class C01(S.SchedCheck):
     def oracle(self, case, obs):
         return lifecycle_clauses(case, obs.d)
 
-    profiles = ("mixed", "ops", "faults", "time", "selfrm", "bexc", "closeops", "benter")
+    profiles = ("mixed", "ops", "faults", "time", "selfrm", "bexc", "closeops", "benter", "actfault", "xext", "lastop")
 
     def known(self, case, obs, clauses):
         # C01-K1 (pre-finding F01): KeyboardInterrupt raised by a doer -> neither clean, cease nor abort runs for it
